@@ -27,6 +27,9 @@ for sid in sorted(os.listdir(os.path.join(VERIF, 'seeded'))):
            conf.get('demo_on_patched_worktree_rc') not in (0, None) and
            str(conf.get('repository_suite_with_patch', '')).startswith(
                '596 passed'))
+    if m.get('superseded'):
+        cell += ' [no longer a breakage: ' + m['superseded'].split(':')[0] \
+            + ']'
     rows.append('| %s | %s (%s) | %s | %s | %s |' % (
         sid, title, ', '.join(os.path.basename(f) for f in
                               m.get('files_changed', [])),
